@@ -1,10 +1,11 @@
 (* Properties/C24.v — the object server exposes exactly the registered interfaces.
    Only statements, each closed by [exact] of a lemma of C24/Proofs.v, and their assumptions.
-   model_state / model_results: the run of the tree model (C24/Model.v: at_, remove on Node trees);
+   model_state / model_results: the run of the tree model (C24/Model.v: at_, remove on Node trees,
+   as repaired by fix f5fe3276: the root is never destroyed, a node with children is kept);
    spec_state / spec_results: the run of the flat map (C24/Spec.v);  Known_C24 h: some step of h,
-   read on the flat map, is a removal that leaves none of the user interfaces at its path while
-   (a) the path is "/", or (b) something is registered strictly below it, or (c) an ObjectManager is
-   registered at it (C24/Spec.v, flag24 / first_flag). *)
+   read on the flat map, is a removal that leaves none of the user interfaces at a non-root path
+   where an ObjectManager is registered while nothing is registered strictly below it
+   (C24/Spec.v, flag24 / first_flag) — the one class left. *)
 From ZV Require Import Base.Bytes Base.Res C24.Ops C24.Model C24.Spec C24.Proofs.
 
 (* For every history outside the known classes, after every prefix of it: each (path, interface)
@@ -32,32 +33,25 @@ Proof. exact h_clean_ok. Qed.
 Print Assumptions C24_partial_nonvacuous.
 
 (* beyond the property text (the flag of `remove` is left open by the flat map): outside the known
-   classes it tells whether nothing at all is left registered at the path *)
+   class a removal that reports the object destroyed left nothing at all registered at the path *)
 Theorem C24_remove_flag_partial : forall h : list op, ~ Known_C24 h ->
-  forall pre p k post b, h = pre ++ Rm p k :: post ->
-    snd (fst (remove (model_state pre) p (ik k))) = Ok b -> b = bare (sdel (spec_state pre) p k) p.
+  forall pre p k post, h = pre ++ Rm p k :: post ->
+    snd (fst (remove (model_state pre) p (ik k))) = Ok true -> bare (sdel (spec_state pre) p k) p = true.
 Proof. exact remove_flag_partial. Qed.
 Print Assumptions C24_remove_flag_partial.
 
-(* known finding 1: at("/", I1); remove::<I1>("/")  panics *)
-Theorem C24_root_remove_refuted :
-  In RPanic (model_results [At [] K1 1; Rm [] K1]) /\
-  first_flag [] [At [] K1 1; Rm [] K1] = Some RootUnwrap.
-Proof. exact root_remove_refuted. Qed.
-Print Assumptions C24_root_remove_refuted.
+(* repaired by f5fe3276 (formerly C24_root_remove_refuted, C24_subtree_refuted): at("/",I1);
+   remove::<I1>("/") and at(/a,I1); at(/a/b,I2); remove::<I1>(/a) are outside the known class — so
+   C24_refines_partial covers them — the first no longer panics, the second keeps I2 at /a/b *)
+Theorem C24_repaired_histories :
+  ~ Known_C24 [At [] K1 1; Rm [] K1] /\
+  ~ Known_C24 [At [B "a"] K1 1; At [B "a"; B "b"] K2 2; Rm [B "a"] K1] /\
+  model_results [At [] K1 1; Rm [] K1] = [RBool true; RDone] /\
+  ok_opt (lookup (model_state [At [B "a"] K1 1; At [B "a"; B "b"] K2 2; Rm [B "a"] K1]) [B "a"; B "b"] (ik K2)) = Some 2%N.
+Proof. exact repaired_ok. Qed.
+Print Assumptions C24_repaired_histories.
 
-(* known finding 2: at(/a, I1); at(/a/b, I2); remove::<I1>(/a)  takes I2 at /a/b away *)
-Theorem C24_subtree_refuted :
-  let h := [At [B "a"] K1 1; At [B "a"; B "b"] K2 2; Rm [B "a"] K1] in
-  sget (spec_state h) [B "a"; B "b"] K2 = Some 2%N /\
-  ok_opt (lookup (model_state h) [B "a"; B "b"] (ik K2)) = None /\
-  ok_opt (call (model_state h) [B "a"; B "b"] (ik K2)) = None /\
-  seen_nested (model_state h) [B "a"; B "b"] (ik K2) = false /\
-  first_flag [] h = Some SubtreeDeleted.
-Proof. exact subtree_refuted. Qed.
-Print Assumptions C24_subtree_refuted.
-
-(* known finding 3: at(/a, I1); at(/a, ObjectManager); remove::<I1>(/a)  takes the manager away *)
+(* the remaining known finding: at(/a, I1); at(/a, ObjectManager); remove::<I1>(/a)  takes the manager away *)
 Theorem C24_manager_refuted :
   let h := [At [B "a"] K1 1; At [B "a"] KM 2; Rm [B "a"] K1] in
   sget (spec_state h) [B "a"] KM = Some 2%N /\
